@@ -115,7 +115,7 @@ func (p *Parser) Read() (*base.T, error) {
 		'^',
 		'+', '-', '/', '*',
 		'>', '<',
-		'(', ')',
+		'(', ')', '`',
 		',', '\n',
 		'{', '}',
 		'[', ']',
